@@ -99,26 +99,42 @@ pub fn traffic<F: Fl, const TOPO: u8, const OUTER: usize, const L0: u8, const L1
             }
         }
     }
-    // declarations
+    // declarations (only operations that exist: ids must map to exactly one send record)
     let mut k = 0;
     while k < 4 {
-        ledger::declare_send(k, 0, 1 + k as u8);
+        if k < L0 as usize {
+            ledger::declare_send(k, 0, 1 + k as u8);
+        }
         match TOPO {
             1 => {
-                if k < 2 {
+                if k < L1 as usize {
                     ledger::declare_send(4 + k, 1, 3 + k as u8);
                 }
-                ledger::declare_recv(8 + k, 2, 0);
+                if k < L2 as usize {
+                    ledger::declare_recv(8 + k, 2, 0);
+                }
             }
             2 => {
-                ledger::declare_recv(4 + k, 1, 0);
-                ledger::declare_recv(8 + k, 2, 0);
+                if k < L1 as usize {
+                    ledger::declare_recv(4 + k, 1, 0);
+                }
+                if k < L2 as usize {
+                    ledger::declare_recv(8 + k, 2, 0);
+                }
             }
             3 => {
-                ledger::declare_recv(4 + k, 1, 0);
-                ledger::declare_recv(8 + k, 2, 1);
+                if k < L1 as usize {
+                    ledger::declare_recv(4 + k, 1, 0);
+                }
+                if k < L2 as usize {
+                    ledger::declare_recv(8 + k, 2, 1);
+                }
             }
-            _ => ledger::declare_recv(4 + k, 1, 0),
+            _ => {
+                if k < L1 as usize {
+                    ledger::declare_recv(4 + k, 1, 0);
+                }
+            }
         }
         k += 1;
     }
@@ -246,3 +262,38 @@ tr!(t4_bc_n2_o1, hk_t4_bc_n2_o1, BcB, 4, 1, [2, 2, 0], TrCfg { pre_send: 2, pre_
 // ---- topology 5: in-place viewer
 tr!(t5_bc_n2_o1, hk_t5_bc_n2_o1, BcB, 5, 1, [1, 1, 0], TrCfg { pre_send: 2, pre_recv: 1, ..QUICK });
 tr!(t5_mp_n1_o0, hk_t5_mp_n1_o0, MpB, 5, 0, [1, 1, 0], TrCfg { cap: 1, n: 1, pre_send: 1, pre_recv: 1, ..QUICK });
+
+// ---- instrumented payload (C04 / C05)
+pub type BcT = BcastPlain<payload::Tok, Busy>;
+pub type MpT = MpmcPlain<payload::Tok, Busy>;
+
+/// injection only inside Clone / view closures, several operations at one such site
+pub const IN_CLONE: TrCfg = TrCfg {
+    cap: 2,
+    n: 2,
+    depth: 1,
+    budget: 3,
+    kinds: 1 << payload::K_PAYLOAD,
+    per_site: 3,
+    pre_send: 2,
+    pre_recv: 1,
+    teardown: true,
+};
+
+// consumer A is in the middle of clone(); its sibling B on the same stream and the producer run there
+tr!(c04_bc_shared_inclone, hk_c04_bc_shared_inclone, BcT, 2, 1, [2, 1, 1], IN_CLONE);
+// two streams: A (stream 0) is in the middle of clone(); stream 1 and the producer run there
+tr!(c04_bc_streams_inclone, hk_c04_bc_streams_inclone, BcT, 3, 1, [2, 1, 1], IN_CLONE);
+// sole consumer viewing in place; the producer tries to wrap the ring meanwhile
+tr!(c04_bc_view_inview, hk_c04_bc_view_inview, BcT, 5, 1, [3, 1, 0], TrCfg { per_site: 3, ..IN_CLONE });
+tr!(c04_mp_view_inview, hk_c04_mp_view_inview, MpT, 5, 1, [3, 1, 0], TrCfg { per_site: 3, ..IN_CLONE });
+// all preemption sites, instrumented payload, teardown at the end
+tr!(c04_bc_shared_all, hk_c04_bc_shared_all, BcT, 2, 1, [1, 1, 1], TrCfg { pre_send: 2, pre_recv: 1, teardown: true, ..QUICK });
+tr!(c05_mp_shared_all, hk_c05_mp_shared_all, MpT, 2, 1, [1, 1, 1], TrCfg { pre_send: 2, pre_recv: 1, teardown: true, ..QUICK });
+
+// cost probes
+tr!(x_t1_mp_b1_all, hk_x_t1_mp_b1_all, MpB, 1, 0, [1, 1, 1], TrCfg { budget: 1, ..QUICK });
+tr!(x_t1_mp_b1_wl, hk_x_t1_mp_b1_wl, MpB, 1, 0, [1, 1, 1], TrCfg { budget: 1, kinds: sched::WIN_LOADS, ..QUICK });
+tr!(x_t1_mp_b1_ww, hk_x_t1_mp_b1_ww, MpB, 1, 0, [1, 1, 1], TrCfg { budget: 1, kinds: sched::WIN_WRITES, ..QUICK });
+tr!(x_t1_mp_b1_wo, hk_x_t1_mp_b1_wo, MpB, 1, 0, [1, 1, 1], TrCfg { budget: 1, kinds: sched::WIN_OTHER, ..QUICK });
+tr!(x_t1_mp_b2_wl, hk_x_t1_mp_b2_wl, MpB, 1, 0, [1, 1, 1], TrCfg { budget: 2, kinds: sched::WIN_LOADS, ..QUICK });
